@@ -198,3 +198,67 @@ class BooleanLexical(FnCheck):
             ex.oblige(st, 'illegal_forms_rejected', z3.Or(legal_true, legal_false))
         else:
             ex.oblige(st, 'legal_forms_accepted', z3.Not(z3.Or(legal_true, legal_false)))
+
+
+# --------------------------------------------------------------------------------------------------------------------
+# "malformed values are rejected" also depends on the read path of the container properties handing EVERY present
+# lexical value - the empty string included - to its converter (which is where it is rejected or converted)
+from pyvc.api import Pure, vany, fresh   # noqa: E402
+
+XS = 'sdc11073.xml_types.xml_structure'
+
+
+@register
+class AttributeReadUsesConverter(FnCheck):
+    id = 'C18.attribute_read_hands_every_present_value_to_its_converter'
+    prop = 'C18'
+    target = f'{XS}:_AttributeBase.get_py_value_from_node'
+    container_hints = {'node.attrib': 'dict'}
+    doc = ('_AttributeBase.get_py_value_from_node (the read path of every typed XML attribute: timestamps, decimals, '
+           'integers / version counters, durations, enums, booleans): an attribute that is PRESENT - with whatever text, '
+           'the empty string included - is converted by converter.to_py and the result (or the converter\'s exception) is '
+           'the outcome; only an absent attribute (or no node) reads as None. No lexical value is coerced on the way')
+
+    def setup(self, b):
+        st = b.st
+        self.name = b.str('attribute_name')
+        self.attrib = b.obj('attrib')
+        st.assume(z3.Select(st.get_arr('C'), self.attrib.e) == b.ex.ctx.builtin_class_ids['dict'])
+        st.assume(z3.Select(st.get_arr('DN'), self.attrib.e) >= 0)
+        node = b.obj('node', cls='LxmlElement', attrib=self.attrib)
+        self.no_node = b.bool('node_is_none')
+        # attribute values of an lxml element are strings
+        k = z3.Const('k!at', Val)
+        dk, dv = z3.Select(st.get_arr('DK'), self.attrib.e), z3.Select(st.get_arr('DV'), self.attrib.e)
+        st.assume(z3.ForAll([k], z3.Implies(z3.Select(dk, k), Val.is_str(z3.Select(dv, k)))))
+        self.dk, self.dv = dk, dv
+        self.topy = z3.Function('converter_to_py', Val, Val)
+        self.accepts = z3.Function('converter_accepts', Val, BoolS)
+        prop = b.obj('self', cls=(XS, '_AttributeBase'), _attribute_name=self.name, _converter=b.obj('converter'))
+        b.distinct(prop, node, self.attrib)
+        st.ghost['converted'] = ()
+        return prop, [b.obj('instance'), vany(z3.If(self.no_node.e, Val.none, Val.ref(node.e)), maybe_none=True)], {}
+
+    def callees(self, ex):
+        def to_py(ex_, st, args, kwargs):
+            x = st.box(args[0])
+            st.ghost['converted'] = st.ghost['converted'] + (x,)
+            bad = st.fork()
+            bad.assume(z3.Not(self.accepts(x)))
+            st.assume(self.accepts(x))
+            return [(bad, Raise(ex_.mk_exc('ValueError', 'converter.to_py'))), (st, vany(self.topy(x)))]
+        return {'*.to_py': Pure(to_py, name='converter.to_py: converts or rejects (C18 converter contracts)')}
+
+    def post(self, ex, st0, st, outcome, b):
+        key = Val.str(self.name.e)
+        present = z3.And(z3.Not(self.no_node.e), z3.Select(self.dk, key))
+        text = z3.Select(self.dv, key)
+        conv = st.ghost['converted']
+        if outcome[0] == 'exc':
+            ex.oblige(st, 'only_the_converter_rejects', z3.BoolVal('converter.to_py' in outcome[1].origin), info={'exc': repr(outcome[1])})
+            ex.oblige(st, 'rejected_value_is_the_attribute_text', z3.And(present, z3.Not(self.accepts(text))))
+            return
+        r = st.box(outcome[1])
+        ex.oblige(st, 'absent_attribute_reads_as_none', z3.Implies(z3.Not(present), Val.is_none(r)))
+        ex.oblige(st, 'present_attribute_is_converted_whatever_its_text', z3.Implies(present, z3.And(
+            z3.BoolVal(len(conv) == 1), conv[0] == text if len(conv) == 1 else z3.BoolVal(False), r == self.topy(text))))
